@@ -34,6 +34,10 @@ def run(prog, report, tier):
     quadtree.check_bdr_search(prog, report)
     quadtree.check_tolerances(prog, report)
     effects.check_cache(prog, report)
+    effects.check_pools(prog, report, only={effects.IP})
+    report.floors.pop('R-ordered', None)
+    report.floors.pop('R-handover', None)
+    effects.check_memo(prog, report, files={effects.IP})
     ipotrules.check_prefactor(prog, report)
     deg3 = 4 if tier == 'quick' else 7
     quadalg.check_duffy(prog, report, 'DuffySchemeIdentical3D', 'scheme3d',
